@@ -169,6 +169,10 @@ var RcodeToString = map[int]string{
 type compressionMap struct {
 	ext map[string]int    // external callers
 	int map[string]uint16 // internal callers
+
+	// added, when set, collects the keys entered into ext, so that a
+	// call that fails can take them out again.
+	added *[]string
 }
 
 func (m compressionMap) valid() bool {
@@ -178,6 +182,9 @@ func (m compressionMap) valid() bool {
 func (m compressionMap) insert(s string, pos int) {
 	if m.ext != nil {
 		m.ext[s] = pos
+		if m.added != nil {
+			*m.added = append(*m.added, s)
+		}
 	} else {
 		m.int[s] = uint16(pos)
 	}
@@ -596,13 +603,27 @@ func intToBytes(i *big.Int, length int) []byte {
 // PackRR packs a resource record rr into msg[off:].
 // See PackDomainName for documentation about the compression.
 func PackRR(rr RR, msg []byte, off int, compression map[string]int, compress bool) (off1 int, err error) {
-	headerEnd, off1, err := packRR(rr, msg, off, compressionMap{ext: compression}, compress)
-	if err == nil {
-		// packRR no longer sets the Rdlength field on the rr, but
-		// callers might be expecting it so we set it here.
-		rr.Header().Rdlength = uint16(off1 - headerEnd)
+	cm := compressionMap{ext: compression}
+	var added []string
+	if compression != nil {
+		cm.added = &added
 	}
-	return off1, err
+	headerEnd, off1, err := packRR(rr, msg, off, cm, compress)
+	if err != nil {
+		// The record was not written, so the names it entered into the
+		// caller's map point at octets that are not part of the message.
+		// Entries are only ever added for names that were not in the map,
+		// so removing them restores the map as the caller passed it, and
+		// the call can be repeated with a larger buffer.
+		for _, s := range added {
+			delete(compression, s)
+		}
+		return off1, err
+	}
+	// packRR no longer sets the Rdlength field on the rr, but
+	// callers might be expecting it so we set it here.
+	rr.Header().Rdlength = uint16(off1 - headerEnd)
+	return off1, nil
 }
 
 func packRR(rr RR, msg []byte, off int, compression compressionMap, compress bool) (headerEnd int, off1 int, err error) {
